@@ -36,24 +36,24 @@ theorem closeConn_conns_other (s : St) (o c : Nat) (h : c ≠ o) : (closeConn s 
   cases hp : (s.conns o).phase <;> simp [closeConn, hp, upd_other, h]
 
 theorem closeConn_conns_cases (s : St) (o c : Nat) :
-    (closeConn s o).conns c = s.conns c ∨
+    ((c ≠ o ∨ (s.conns c).phase = .closed ∨ (s.conns c).phase = .dialing) ∧ (closeConn s o).conns c = s.conns c) ∨
     ((s.conns c).phase = .play ∧ c = o ∧ (closeConn s o).conns c = { s.conns c with phase := .closed }) ∨
     (((s.conns c).phase = .login ∨ (s.conns c).phase = .config ∨ (s.conns c).phase = .transition) ∧ c = o ∧
       (closeConn s o).conns c = { s.conns c with phase := .closed, result := orElse (s.conns c).result .err }) := by
   by_cases hc : c = o
   · subst hc
     cases hp : (s.conns c).phase <;> simp [closeConn, hp]
-  · left; exact closeConn_conns_other s o c hc
+  · left; exact ⟨Or.inl hc, closeConn_conns_other s o c hc⟩
 
 @[simp] theorem closeConn_h (s : St) (o c : Nat) : ((closeConn s o).conns c).h = (s.conns c).h := by
-  rcases closeConn_conns_cases s o c with h | ⟨_, _, h⟩ | ⟨_, _, h⟩ <;> rw [h]
+  rcases closeConn_conns_cases s o c with ⟨_, h⟩ | ⟨_, _, h⟩ | ⟨_, _, h⟩ <;> rw [h]
 @[simp] theorem closeConn_server (s : St) (o c : Nat) : ((closeConn s o).conns c).server = (s.conns c).server := by
-  rcases closeConn_conns_cases s o c with h | ⟨_, _, h⟩ | ⟨_, _, h⟩ <;> rw [h]
+  rcases closeConn_conns_cases s o c with ⟨_, h⟩ | ⟨_, _, h⟩ | ⟨_, _, h⟩ <;> rw [h]
 @[simp] theorem closeConn_jold (s : St) (o c : Nat) : ((closeConn s o).conns c).jold = (s.conns c).jold := by
-  rcases closeConn_conns_cases s o c with h | ⟨_, _, h⟩ | ⟨_, _, h⟩ <;> rw [h]
+  rcases closeConn_conns_cases s o c with ⟨_, h⟩ | ⟨_, _, h⟩ | ⟨_, _, h⟩ <;> rw [h]
 @[simp] theorem closeConn_completedJoin (s : St) (o c : Nat) :
     ((closeConn s o).conns c).completedJoin = (s.conns c).completedJoin := by
-  rcases closeConn_conns_cases s o c with h | ⟨_, _, h⟩ | ⟨_, _, h⟩ <;> rw [h]
+  rcases closeConn_conns_cases s o c with ⟨_, h⟩ | ⟨_, _, h⟩ | ⟨_, _, h⟩ <;> rw [h]
 
 theorem closeConn_phase_self (s : St) (o : Nat) (h : (s.conns o).phase ≠ .dialing) :
     ((closeConn s o).conns o).phase = .closed := by
@@ -61,7 +61,7 @@ theorem closeConn_phase_self (s : St) (o : Nat) (h : (s.conns o).phase ≠ .dial
 
 theorem closeConn_attempting (s : St) (o c : Nat) (h : attempting ((closeConn s o).conns c) = true) :
     attempting (s.conns c) = true := by
-  rcases closeConn_conns_cases s o c with h1 | ⟨hp, _, h1⟩ | ⟨hp, _, h1⟩
+  rcases closeConn_conns_cases s o c with ⟨_, h1⟩ | ⟨hp, _, h1⟩ | ⟨hp, _, h1⟩
   · rwa [h1] at h
   · rw [h1] at h; simp_all [attempting]
   · rw [h1] at h; simp_all [attempting]
@@ -93,6 +93,19 @@ theorem closeOpt_attempting (s : St) (o : Option Nat) (c : Nat) (h : attempting 
   cases o with
   | none => exact h
   | some o => exact closeConn_attempting s o c h
+
+theorem closeOpt_conns_cases (s : St) (o : Option Nat) (c : Nat) :
+    (closeOpt s o).conns c = s.conns c ∨
+    ((s.conns c).phase = .play ∧ o = some c ∧ (closeOpt s o).conns c = { s.conns c with phase := .closed }) ∨
+    (((s.conns c).phase = .login ∨ (s.conns c).phase = .config ∨ (s.conns c).phase = .transition) ∧ o = some c ∧
+      (closeOpt s o).conns c = { s.conns c with phase := .closed, result := orElse (s.conns c).result .err }) := by
+  cases o with
+  | none => left; rfl
+  | some o =>
+    rcases closeConn_conns_cases s o c with ⟨_, h⟩ | ⟨hp, hc, h⟩ | ⟨hp, hc, h⟩
+    · left; exact h
+    · right; left; exact ⟨hp, by rw [hc], h⟩
+    · right; right; exact ⟨hp, by rw [hc], h⟩
 
 /-! ### setH / spawnTask / setPc / finish -/
 @[simp] theorem setH_nconns (s : St) (c : Nat) (h : H) : (setH s c h).nconns = s.nconns := rfl
@@ -168,14 +181,18 @@ theorem quitPlayer_attempting (s : St) (c : Nat) (h : attempting ((quitPlayer s)
 
 /-! ### handler/phase consistency (needed for the monotonicity of `attempting`) -/
 def jpOK (C : Conn) : Prop :=
-  ((C.h = .j1b ∨ C.h = .j3) → C.phase = .transition ∨ C.result ≠ none) ∧
-  (C.h = .j4 → C.phase = .play ∨ C.phase = .closed ∨ C.result ≠ none) ∧
-  (C.phase = .dialing → C.h = .idle)
+  ((C.h = .j1b ∨ C.h = .j3) → (C.phase = .transition ∧ C.result = none) ∨ (C.phase = .closed ∧ C.result ≠ none)) ∧
+  ((C.h = .j4 ∨ C.h = .j5) → C.phase = .play ∨ C.phase = .closed) ∧
+  (C.phase = .dialing → C.h = .idle ∧ C.result = none) ∧
+  (C.h = .closeSelf → C.phase = .login ∨ C.phase = .transition ∨ C.phase = .closed) ∧
+  (C.h = .cfgKick2 → C.phase = .closed) ∧
+  ((C.phase = .login ∨ C.phase = .config ∨ C.phase = .transition) → C.h = .idle → C.beh ≠ .idle → C.result = none) ∧
+  ((C.h = .sw1 ∨ C.h = .sw2 ∨ C.h = .sw3) → (C.phase = .config ∧ C.result = none) ∨ (C.phase = .closed ∧ C.result ≠ none))
 
 def JP (s : St) : Prop := ∀ c, c < s.nconns → jpOK (s.conns c)
 
 theorem jpOK_closeConn (s : St) (o c : Nat) (h : jpOK (s.conns c)) : jpOK ((closeConn s o).conns c) := by
-  rcases closeConn_conns_cases s o c with h1 | ⟨hp, _, h1⟩ | ⟨hp, _, h1⟩
+  rcases closeConn_conns_cases s o c with ⟨_, h1⟩ | ⟨hp, _, h1⟩ | ⟨hp, _, h1⟩
   · rw [h1]; exact h
   · rw [h1]; simp_all [jpOK]
   · rw [h1]; rcases hp with hp | hp | hp <;> simp_all [jpOK]
@@ -296,23 +313,12 @@ theorem step_nconns {cfg : Cfg} {s s' : St} {a : Act} (h : step cfg s a = some s
   | quit => simp [step] at h; subst h; simp
 
 
-theorem jpOK_setH_close (s : St) (o : Option Nat) (c0 c : Nat) (h' : H)
-    (hJc : jpOK (s.conns c)) (hJ0 : jpOK (s.conns c0))
-    (hside : jpOK { (closeOpt s o).conns c0 with h := h' }) :
-    jpOK ((setH (closeOpt s o) c0 h').conns c) := by
-  rw [setH_conns]
-  split
-  · exact hside
-  · exact jpOK_closeOpt _ _ _ hJc
-
 theorem stepBack_JP {cfg : Cfg} {s s' : St} {c0 : Nat} (hJP : JP s) (h : stepBack cfg s c0 = some s') : JP s' := by
   unfold stepBack at h
   split at h
   · simp at h
   · rename_i hlt
     have hJ0 := hJP c0 (by omega)
-    have hB := jpOK_closeConn s c0 c0 hJ0
-    have hB2 := jpOK_closeOpt s (s.conns c0).jold c0 hJ0
     simp only [] at h
     cases hh : (s.conns c0).h <;> simp only [hh] at h
     all_goals (repeat' (split at h))
@@ -321,15 +327,25 @@ theorem stepBack_JP {cfg : Cfg} {s s' : St} {c0 : Nat} (hJP : JP s) (h : stepBac
     all_goals (intro c hc; have hJc : jpOK (s.conns c) := hJP c (by simpa using hc))
     all_goals first
       | exact jpOK_closeConn _ _ _ hJc
-      | (simp only [spawnTask_conns, setH_conns, upd_apply]; split <;> simp_all [jpOK]; done)
-      | (simp only [spawnTask_conns, setH_conns, upd_apply]; split
+      | (try dsimp only [spawnTask_conns]
+         rw [setH_conns]
+         split
          · rename_i hcc; subst hcc
            first
-             | (simp_all [jpOK]; done)
-             | (have := closeConn_phase_self s c (by simp_all); simp_all [jpOK]; done)
-         · first | exact jpOK_closeConn _ _ _ hJc | exact jpOK_closeOpt _ _ _ hJc)
-      | skip
-
+             | (unfold jpOK at hJ0 ⊢; simp_all; done)
+             | (unfold jpOK at hJ0 ⊢; cases hp : (s.conns c).phase <;> simp_all; done)
+             | (rcases closeConn_conns_cases s c c with ⟨hp, h1⟩ | ⟨hp, _, h1⟩ | ⟨hp, _, h1⟩ <;> rw [h1] <;>
+                  unfold jpOK at hJ0 ⊢ <;> (first | (simp_all; done) | (cases hp2 : (s.conns c).phase <;> simp_all; done)); done)
+             | (rcases closeOpt_conns_cases s (s.conns c).jold c with h1 | ⟨hp, _, h1⟩ | ⟨hp, _, h1⟩ <;> rw [h1] <;>
+                  unfold jpOK at hJ0 ⊢ <;> (first | (simp_all; done) | (cases hp2 : (s.conns c).phase <;> simp_all; done)); done)
+         · first | exact hJc | exact jpOK_closeConn _ _ _ hJc | exact jpOK_closeOpt _ _ _ hJc)
+      | (try dsimp only
+         simp only [upd_apply]
+         split
+         · rename_i hcc; subst hcc
+           unfold jpOK at hJ0 ⊢
+           first | (simp_all; done) | (cases hp : (s.conns c).phase <;> simp_all)
+         · exact hJc)
 
 theorem stepTask_JP {cfg : Cfg} {s s' : St} {i : Nat} (hJP : JP s) (h : stepTask cfg s i = some s') : JP s' := by
   unfold stepTask at h
